@@ -63,7 +63,7 @@ def bitOf (m ev : Nat) : Bool := ev ≥ 1 && (m >>> (ev - 1)) % 2 == 1
 
 def memFor (name req : String) : Nat :=
   let h := (name ++ "|" ++ req).toList.foldl (fun h c => (h * 1099511 + c.toNat) % 1000000007) 1469598103
-  4096 + h
+  2^28 + h % 2^27
 
 abbrev Items := List (String × String)
 
